@@ -311,7 +311,7 @@ func runCheck(id string, opts checkOpts) *checkResult {
 		}
 		if o.Cover && strings.HasPrefix(o.Label, "return#") {
 			// reachability of return sites: compared against the pinned tree's record
-			if was, ok := coverBase[o.Name()]; ok && was == "sat" {
+			if was, ok := coverBase[o.Name()]; ok && was == "sat" && o.Status == "unsat" {
 				res.undecided = append(res.undecided, "vacuity guard: return site reachable on the pinned tree is now unreachable in the model: "+o.Name()+" ("+o.Pos+") ["+o.Status+"]")
 			}
 			continue
